@@ -80,12 +80,20 @@ def oracle_verdict(o):
     if o is None:
         return None
     bad = o.get("oracle") == "BAD" or o.get("oracle2") == "BAD"
+    if o.get("kind") == "READ" and o.get("spec") == "BAD":
+        return "a fully synced directory does not read back as the script specifies (metadata, last hard state, entry log of spec_run)"
     if o.get("kind") == "K":
         if o.get("durable") == "BAD":
             return ("process-kill image taken when a Save/SaveSnapshot returned: reopening does not return every entry of the "
                     "completed saves and the Term/Vote of the last completed hard state (the call returned without making it durable)")
         if o.get("prefix") == "BAD":
             return "process-kill image does not contain the durable state of the writer model (a sync the model performs did not happen)"
+        return None
+    if o.get("kind") == "T":
+        if bad:
+            return "truncated tail: data returned without error is not (synced records ++ whole prefix of the unsynced records)"
+        if o.get("shape") == "BAD":
+            return "a tail file that ends inside the unsynced records is reported as a fatal error or is not repairable"
         return None
     if o.get("kind") == "Z":
         if o.get("nocoin") == "0":
@@ -108,7 +116,7 @@ def oracle_verdict(o):
 
 # ----------------------------------------------------------------------------- case files
 
-CASE_TAGS = ("READ", "M", "Z", "K")
+CASE_TAGS = ("READ", "M", "Z", "K", "T")
 
 
 def split_blocks(text):
@@ -320,6 +328,17 @@ def symbolic(block, case):
                     return "MUT M %d %d %d %d %s %s" % (op, g, rel, val, fs[3], fs[4])
                 g -= n
             return None
+        if fs[0] == "T":
+            ids = list(block.dirs)
+            bi = ids.index(fs[2])
+            B = block.dirs[fs[2]]
+            synced = int(fs[7])
+            for j in range(bi - 1, -1, -1):
+                A = block.dirs[ids[j]]
+                if A["nops"] >= 0 and len(A["files"]) == len(B["files"]) and frame_offsets(A["files"][-1][2])[1] == synced:
+                    return "MUT T %d %d %d %s %s" % (block.real_index_after(A["nops"]), block.real_index_after(B["nops"]),
+                                                     int(fs[6]) - synced, fs[3], fs[4])
+            return None
         if fs[0] == "Z":
             ids = list(block.dirs)
             bi = ids.index(fs[2])
@@ -389,7 +408,7 @@ def retarget(mut, removed):
             return None
         if op > removed:
             fs[2] = str(op - 1)
-    elif fs[1] == "Z":
+    elif fs[1] in ("Z", "T"):
         a, b = int(fs[2]), int(fs[3])
         if removed in (a, b):
             return None
@@ -817,7 +836,11 @@ def run(ctx):
                 hist["%s/%s/%s" % (kind, o.get("part", "-"), outcome)] += 1
                 if kind == "K":
                     stats["kill_images"] += 1
-                if kind in ("READ", "K") or "err:" in v or (kind == "Z" and "repair" in v):
+                if kind == "T":
+                    stats["truncation_images"] += 1
+                if kind == "READ" and o.get("spec") == "ok":
+                    stats["reads_checked_against_spec_run"] += 1
+                if kind in ("READ", "K", "T") or "err:" in v or (kind == "Z" and "repair" in v):
                     stats["nontrivial"] += 1
                 ov = oracle_verdict(o)
                 if ov == "known:" + FINDING:
